@@ -41,8 +41,8 @@ Definition persisting (k : dkind) : bool := match k with KInMemory => false | _ 
 
 Section Eval.
   Variable classes : list tclass.
-  (* run of class number i: persisted parameter reprs, input values, number of runs started before *)
-  Variable run : nat -> list (str * str) -> list (str * value) -> nat -> value.
+  (* run of class number i, a function of the persisted parameter reprs and of the input values *)
+  Variable run : nat -> list (str * str) -> list (str * value) -> value.
 
   Definition cls_of (o : obj) : option tclass := nth_error classes (o_cls o).
 
@@ -100,7 +100,6 @@ Section Eval.
                         let w2 := with_store (dset (log_path tc o) (FLog []) (w_store w1)) w1 in
                         let w3 := {| w_store := w_store w2; w_objs := w_objs w2; w_states := w_states w2;
                                      w_runlog := w_runlog w2 ++ [(c_slug tc, o_key o)]; w_fail := w_fail w2 |} in
-                        let nth_run := List.length (w_runlog w3) in
                         if existsb (str_eqb (c_slug tc)) (w_fail w3) then (w3, inr ERun)
                         else
                           (* the generated run reads its inputs in declaration order *)
@@ -120,7 +119,7 @@ Section Eval.
                           match fold_left step (o_inputs o) (w3, inl []) with
                           | (w4, inr e) => (w4, inr ERun)
                           | (w4, inl ins) =>
-                              let v := run (o_cls o) (persisted_reprs o) ins nth_run in
+                              let v := run (o_cls o) (persisted_reprs o) ins in
                               let st1 := dset (log_path tc o) (FLog [lit "token"]) (w_store w4) in
                               let st2 := if persisting (c_data tc) then dset final (FValue v) st1 else st1 in
                               let st3 := dset (info_path tc o) (FInfo (run_info tc o [])) st2 in
